@@ -232,7 +232,7 @@ impl Scenario for DigestStream {
         }
     }
 
-    fn generate(&self, rng: &mut Rng, tier: Tier) -> Plan {
+    fn generate(&self, rng: &mut Rng, tier: Tier, _index: u64) -> Plan {
         let mut events: Vec<Event> = vec![];
         let n_msgs = rng.range(1, 3);
         let max_len = if tier == Tier::Thorough && rng.chance(1, 20) { 65536 } else { 1024 };
